@@ -241,3 +241,32 @@ pub fn judge(w: &Word) -> (bool, Option<String>, Option<(String, String)>) {
         }
     }
 }
+
+#[cfg(test)]
+mod t {
+    use super::*;
+    fn w(model: &[&'static str], syms: Vec<Sym>) -> Word {
+        (model.to_vec(), syms)
+    }
+    #[test]
+    fn reference_accepts_a_valid_specification() {
+        let word = w(&["a", "b"], vec![Sym::Func { names: vec!["b", "a"], arity: 2 }, Sym::Pd { name: "a", arity: 2 }, Sym::Pd { name: "b", arity: 2 }, Sym::Inv, Sym::X, Sym::Init(2)]);
+        assert!(reference_defects(&word).is_empty());
+        assert!(judge(&word).2.is_none());
+    }
+    #[test]
+    fn reference_names_every_defect() {
+        let word = w(&["a", "a"], vec![Sym::Pd { name: "c", arity: 1 }, Sym::Func { names: vec!["c"], arity: 2 }, Sym::Init(5)]);
+        let d = reference_defects(&word);
+        for k in ["DuplicateParameterNames|a,a", "IllegalCallToPartialDeriv", "IncorrectParameterCount|actual=1|expected=2", "FunctionParameterNotInModel|c", "MissingDerivative|c|c", "IncorrectParameterCount|actual=5|expected=2", "UnusedParameter|a", "MissingX", "MissingInitialParameters"] {
+            assert!(d.contains(k), "missing {} in {:?}", k, d);
+        }
+    }
+    #[test]
+    fn derivative_of_a_declared_but_foreign_parameter_is_not_an_invalid_derivative() {
+        let word = w(&["a"], vec![Sym::Func { names: vec!["b"], arity: 1 }, Sym::Pd { name: "b", arity: 1 }]);
+        let d = reference_defects(&word);
+        assert!(d.contains("FunctionParameterNotInModel|b"));
+        assert!(!d.iter().any(|s| s.starts_with("InvalidDerivative")));
+    }
+}
